@@ -366,7 +366,102 @@ fn decoded_protected_case(g: &mut Gen, ctx: &mut Ctx) -> CaseResult {
     Ok(())
 }
 
+/// CWT claims sets assembled in memory (struct literal, or the builder when the value allows it):
+/// every populated claim is emitted once under its registered key with its exact value — a
+/// fractional-seconds time stamp as a float even when its value is integral, whole seconds as an
+/// integer — extras in their given order, and decoding the output returns the value.
+fn claims_case(g: &mut Gen, ctx: &mut Ctx) -> CaseResult {
+    use coset::cwt::{ClaimName, ClaimsSet, Timestamp};
+    let mut c = ClaimsSet::default();
+    let mut typed: Vec<(Item, Item)> = vec![];
+    let mut text = |g: &mut Gen, k: i128, typed: &mut Vec<(Item, Item)>| -> Option<String> {
+        if g.ratio(1, 3) {
+            let t = g.text();
+            typed.push((Item::Int(k), Item::Text(t.clone())));
+            Some(t)
+        } else {
+            None
+        }
+    };
+    c.issuer = text(g, 1, &mut typed);
+    c.subject = text(g, 2, &mut typed);
+    c.audience = text(g, 3, &mut typed);
+    let mut time = |g: &mut Gen, k: i128, typed: &mut Vec<(Item, Item)>| -> Option<Timestamp> {
+        if !g.ratio(1, 2) {
+            return None;
+        }
+        Some(if g.bool() {
+            let v = match g.below(4) {
+                0 => 1_700_000_000,
+                1 => g.i64(),
+                2 => *g.pick(&[0i64, -1, 1, 23, 24, 255, 256, i64::MAX, i64::MIN, 1 << 53, 0xffff_ffff]),
+                _ => g.range_i64(-100, 100),
+            };
+            typed.push((Item::Int(k), Item::Int(v as i128)));
+            Timestamp::WholeSeconds(v)
+        } else {
+            // fractional seconds whose value happens to be integral stay fractional seconds
+            let f = match g.below(3) {
+                0 => *g.pick(&[0.0f64, -0.0, 1.0, -1.0, 2.0, 1444064944.0, 1_700_000_000.0, 9007199254740992.0, -9007199254740992.0, 9.223372036854775807e18, -9.223372036854775808e18, 1e300, f64::INFINITY, f64::NEG_INFINITY]),
+                1 => gen_float(g, false),
+                _ => (g.range_i64(-1_000_000, 1_000_000) as f64) + *g.pick(&[0.0, 0.5, 0.25, 0.0]),
+            };
+            typed.push((Item::Int(k), Item::Float(f)));
+            Timestamp::FractionalSeconds(f)
+        })
+    };
+    c.expiration_time = time(g, 4, &mut typed);
+    c.not_before = time(g, 5, &mut typed);
+    c.issued_at = time(g, 6, &mut typed);
+    if g.ratio(1, 3) {
+        let b = g.small_bytes();
+        typed.push((Item::Int(7), Item::Bytes(b.clone())));
+        c.cwt_id = Some(b);
+    }
+    let mut rest: Vec<(Item, Item)> = vec![];
+    for i in 0..g.weighted(&[3, 3, 2, 1]) {
+        let (name, key) = match g.below(3) {
+            0 => {
+                let t = format!("{}{}", g.text(), i);
+                (ClaimName::Text(t.clone()), Item::Text(t))
+            }
+            1 => {
+                let n = -65537 - 7 * i as i64 - g.range_i64(0, 5);
+                (ClaimName::PrivateUse(n), Item::Int(n as i128))
+            }
+            _ => {
+                let (cn, n) = *g.pick(&[(iana::CwtClaimName::Cnf, 8i128), (iana::CwtClaimName::Scope, 9), (iana::CwtClaimName::CNonce, 39)]);
+                (ClaimName::Assigned(cn), Item::Int(n))
+            }
+        };
+        if rest.iter().any(|(k, _)| k == &key) {
+            continue;
+        }
+        let v = gen_value(g, 2, false);
+        let v = crate::conv::as_read_by_ciborium(&v);
+        if let Some(val) = crate::conv::item_to_value(&v) {
+            c.rest.push((name, val));
+            rest.push((key, v));
+        }
+    }
+    ctx.class("type:ClaimsSet");
+    if typed.len() + rest.len() >= 2 {
+        ctx.nontrivial(hash_str(&format!("{:?}", c)));
+        ctx.sample_with(|| format!("ClaimsSet {}", short(&c, 300)));
+    }
+    let out = c.clone().to_vec().map_err(|e| format!("ClaimsSet: well-formed value failed to encode: {:?} ({})", e, short(&c, 300)))?;
+    let read = read_strict(&out).map_err(|e| format!("ClaimsSet: output is not definite-length shortest-form CBOR ({:?}): {}", e, hex_trunc(&out, 200)))?;
+    let m = read.as_map().ok_or("ClaimsSet: output is not a map")?;
+    map_matches(m, &typed, &rest).map_err(|e| format!("ClaimsSet {} encodes to {}: {}", short(&c, 300), diag(&read), e))?;
+    let back = ClaimsSet::from_slice(&out).map_err(|e| format!("ClaimsSet: own output {} rejected: {:?}", hex_trunc(&out, 200), e))?;
+    ensure!(same(&back, &c), "ClaimsSet: decoding the output does not return the value\n  value:   {}\n  decoded: {}", short(&c, 400), short(&back, 400));
+    Ok(())
+}
+
 fn case(g: &mut Gen, ctx: &mut Ctx) -> CaseResult {
+    if g.ratio(1, 12) {
+        return claims_case(g, ctx);
+    }
     if g.ratio(1, 25) {
         return deep_nested_case(g, ctx);
     }
